@@ -17,8 +17,9 @@ TRANSLATE = True
 # Gen/AlgoLMeasure.lean is regenerated on every run from analysis/lmeasure.py (n_stems, n_bifs, n_branch, n_tips, branch_order, terminal_degree,
 # partition_asymmetry, fragmentation), tree.py (Tree.soma, Tree.get_tips, Tree.Node.subtree), swc.py (number_of_edges); it calls the node handles
 # (Gen/AlgoNode), get_furcations / get_branches (Gen/AlgoBranches) and get_subtree_impl (Gen/AlgoSubtree), all over the generated traversal
-TRANSLATE_ALGO = ["AlgoTraverse", "AlgoNode", "AlgoBranches", "AlgoSubtree", "AlgoLMeasure"]
-DRIVER_FILES = ["SwcVerif/Model/AlgoRunLMeasure.lean", "SwcVerif/Model/PyMore.lean"]
+TRANSLATE_ALGO = ["AlgoTraverse", "AlgoNode", "AlgoBranches", "AlgoSubtree", "AlgoLMeasure", "AlgoSholl", "AlgoFeatFront"]
+DRIVER_FILES = ["SwcVerif/Model/AlgoRunLMeasure.lean", "SwcVerif/Model/PyMore.lean", "SwcVerif/Model/AlgoRunSholl.lean", "SwcVerif/Model/PySholl.lean",
+                "SwcVerif/Model/PyResample.lean"]
 LEAN_MODS = ["SwcVerif.Props.C10", "SwcVerif.Proofs.Represent", "SwcVerif.Props.C10Gen"]
 THEOREMS = [
     "C10.length_eq_sum_edges", "C10.chainLength_eq", "C10.length_eq_sum_branches", "C10.branches_eq", "C10.counts", "C10.path_distance_eq_sum",
@@ -830,6 +831,35 @@ def sholl_exact(t, radii):
     return out
 
 
+def _short_tree(t):
+    """the axis tree with every root distance rounded to a positive multiple of 1/8, root at the origin (short float32 mantissas: the
+    library's float32 arithmetic on `rmax` is exact)"""
+    root = t["xyz"][0]
+    xyz, dist = [[0.0, 0.0, 0.0]], [0.0]
+    for q in t["xyz"][1:]:
+        d = [q[k] - root[k] for k in range(3)]
+        ax = max(range(3), key=lambda k: abs(d[k]))
+        m = max(0.125, round(abs(d[ax]) * 8) / 8)
+        p = [0.0, 0.0, 0.0]; p[ax] = m if d[ax] >= 0 else -m
+        xyz.append(p); dist.append(m)
+    return dict(t, xyz=xyz, dist=dist)
+
+
+def _q(x):
+    """a float as the exact rational the driver reads / prints (`showRat`)"""
+    f = Fraction(float(x))
+    return str(f.numerator) if f.denominator == 1 else f"{f.numerator}/{f.denominator}"
+
+
+def _qs(xs):
+    xs = list(xs)
+    return ",".join(_q(x) for x in xs) if xs else "_"
+
+
+def _qrows(m):
+    return ";".join(_qs(r) for r in m)
+
+
 class ShollNear(Suite):
     """the Sholl count "at any radius": caller-supplied float64 radii that lie a fraction of a float32 place away from the root distance
     of a node (and on it, and on its float32 / float64 neighbours).  The trees are axis trees: every distance is stored exactly, the
@@ -845,7 +875,8 @@ class ShollNear(Suite):
                 shape = gen.SHAPES[1:][k % (len(gen.SHAPES) - 1)]; k += 1
                 offset = rep % 4 == 3
                 t = axis_tree(rng, n, shape, offset)
-                case = {"class": shape + ("/offset-root" if offset else "/origin-root"), "tree": t, "radii": radii_near(rng, t["dist"])}
+                case = {"class": shape + ("/offset-root" if offset else "/origin-root"), "tree": t, "radii": radii_near(rng, t["dist"]),
+                        "legacy_step": rng.choice([0.25, 0.5, 1.5, 2.0, 0.375])}
                 if rep % 2 == 0:        # the same radii asked of a population: the other tree has distances next to them, too
                     t2 = axis_tree(rng, rng.choice([2, 3, 5]), "random", False)
                     t2["xyz"] = [[0.0, 0.0, 0.0]] + [[(1 if c > 0 else -1) * _f32step(rng.choice(t["dist"][1:]), rng.choice([-1, 0, 1])) if c != 0 else 0.0 for c in q]
@@ -872,6 +903,31 @@ class ShollNear(Suite):
             # scalar for NumPy ≥ 2, which the library must not let numpy round to the float32 precision of the stored distances: D29)
             res["intersect"] = [int(sh.intersect(np.float64(r))) for r in rs]
             res["intersect_py"] = [int(sh.intersect(float(r))) for r in rs]
+            # for the GENERATED definitions (Gen/AlgoSholl.lean, driver op `gsholl`): the object `__init__` builds, the radii of an integer step
+            # count (k + 1 a power of two: `rmax / (k + 1)` and every multiple are exact in float64, as in the driver's rationals) and the
+            # legacy `Sholl(tree, step=…)` radii
+            res["obj"] = {"rmax": float(sh.rmax), "rs": [[float(a), float(b)] for a, b in np.asarray(sh.rs)]}
+            # (the library divides and subtracts at float32: exact only while (k + 1) * mantissa(rmax) fits 24 bits — decided in `lines` from the
+            # INPUT; a copy of the tree with every distance rounded to eighths always qualifies)
+            res["getn"] = {str(k): {"rs": [float(v) for v in sh._get_rs(k)], "counts": [int(v) for v in sh.get(steps=k)]} for k in (1, 3, 7)}
+            short = _short_tree(case["tree"])
+            shs = Sholl(gen.make_tree(short))
+            res["short"] = {"dist": short["dist"], "rmax": float(shs.rmax), "rs": [[float(a), float(b)] for a, b in np.asarray(shs.rs)],
+                            "getn": {str(k): {"rs": [float(v) for v in shs._get_rs(k)], "counts": [int(v) for v in shs.get(steps=k)]} for k in (1, 3, 7, 15)}}
+            lstep = case.get("legacy_step", 0.5)
+            shl = Sholl(t, step=lstep)
+            res["legacy"] = {"step": lstep, "rs": [float(v) for v in shl._get_rs(20)], "counts": [int(v) for v in shl.get()],
+                             "counts_list": [int(v) for v in shl.get(steps=rs)]}
+            try:
+                Sholl(gen.make_tree({"n": 1, "pids": [-1], "types": [1], "xyz": [[1.0, 2.0, 3.0]], "r": [1.0]}))
+                res["single"] = "ok"
+            except Exception as e:  # noqa: BLE001 - compared with the generated __init__
+                res["single"] = "X:" + type(e).__name__
+            try:
+                sh.get(steps=[])
+                res["nosteps"] = "ok"
+            except Exception as e:  # noqa: BLE001 - numpy's AxisError: compared with the generated `get`
+                res["nosteps"] = "E"
             fe = extract_feature(t)
             res["fe"] = [float(v) for v in fe.get("sholl", steps=rs)]
             res["fe_list"] = [float(v) for v in fe.get([("sholl", {"steps": rs})])[0]]
@@ -879,6 +935,40 @@ class ShollNear(Suite):
                 rows = extract_feature(Population([t, gen.make_tree(case["other"])])).get("sholl", steps=rs)
                 res["pop"] = [[float(v) for v in row] for row in np.asarray(rows)]
         return res
+
+    def lines(self, case, res):
+        """the definitions GENERATED from sholl.py / tree.py / compartment.py on this run, executed at exact rationals on the same tree (the
+        distances to the root are the exact `dist` of the axis tree) and radii"""
+        if "exc" in res or "obj" not in res:
+            return []
+        t = case["tree"]
+        g = f"gsholl pids={gen.ints(t['pids'])} rad={_qs(t['dist'])}"
+        rq = _qs(case["radii"])
+        out = [(f"{g} what=init", f"{_q(res['obj']['rmax'])} {_qrows(res['obj']['rs'])} w=0"),
+               (f"{g} what=intersect r={rq}", gen.ints(res["intersect"])),
+               (f"{g} what=intersect r={rq}", gen.ints(res["intersect_py"])),
+               (f"{g} what=get r={rq}", gen.ints(res["get_list"])),
+               (f"{g} what=get r={rq}", gen.ints(res["get_array"])),
+               (f"{g} what=rs r={rq}", rq),
+               (f"{g} what=get r=_", res["nosteps"]),
+               ("gsholl pids=-1 rad=0 what=init", res["single"])]
+        num = Fraction(max(t["dist"])).numerator
+        while num and num % 2 == 0:
+            num //= 2
+        for k, v in res["getn"].items():
+            if num * (int(k) + 1) < 2 ** 24:         # the float32 quotient `rmax / (k + 1)`, its multiples and `rmax - s` are exact
+                out += [(f"{g} what=rsn n={k}", _qs(v["rs"])), (f"{g} what=getn n={k}", gen.ints(v["counts"]))]
+        sh_ = res["short"]
+        gs = f"gsholl pids={gen.ints(t['pids'])} rad={_qs(sh_['dist'])}"
+        out.append((f"{gs} what=init", f"{_q(sh_['rmax'])} {_qrows(sh_['rs'])} w=0"))
+        for k, v in sh_["getn"].items():
+            out += [(f"{gs} what=rsn n={k}", _qs(v["rs"])), (f"{gs} what=getn n={k}", gen.ints(v["counts"]))]
+        lg = res["legacy"]
+        gl = f"{g} step={_q(lg['step'])}"
+        out += [(f"{gl} what=init", f"{_q(res['obj']['rmax'])} {_qrows(res['obj']['rs'])} w=1"),
+                (f"{gl} what=rsn n=20", _qs(lg["rs"])), (f"{gl} what=getn n=20", gen.ints(lg["counts"])),
+                (f"{gl} what=get r={rq}", gen.ints(lg["counts_list"])), (f"{gl} what=rs r={rq}", _qs(lg["rs"]))]
+        return out
 
     def oracle(self, case, res):
         t = case["tree"]
@@ -1186,6 +1276,29 @@ class PopulationRows(Suite):
             answers = [ask(ex, q) for q in case["requests"]]
             single = [[ask(extract_feature(t), {"feat": q["feat"], "form": "kw"}) for q in case["requests"]] for g in trees for t in g]
         return {"answers": answers, "single": single}
+
+    def lines(self, case, res):
+        """the GENERATED `_get_impl` of the Population / Populations extractor (Gen/AlgoFeatFront.lean) on the value vectors the real
+        per-tree extractor returned, against what the real population extractor returned (float32 values as exact rationals)"""
+        if not isinstance(res, dict) or "answers" not in res or "single" not in res:
+            return []
+        out = []
+        sizes = [len(g) for g in case["groups"]]
+        for k, (q, ans) in enumerate(zip(case["requests"], res["answers"])):
+            vecs = [per[k].get("values") if isinstance(per, list) and k < len(per) and isinstance(per[k], dict) else None for per in res["single"]]
+            if any(not isinstance(v, list) for v in vecs) or len(vecs) != sum(sizes):
+                continue
+            if case["kind"] == "population":
+                line = "gpoprows vals=" + _qrows(vecs)
+                want = "E" if "exc" in ans else _qrows(ans["values"])
+            else:
+                blocks, at = [], 0
+                for m in sizes:
+                    blocks.append(vecs[at:at + m]); at += m
+                line = "gpoprows3 vals=" + "|".join(_qrows(b) if b else "~" for b in blocks)
+                want = "E" if "exc" in ans else "|".join(_qrows(b) if b else "~" for b in ans["values"])
+            out.append((line, want))
+        return out
 
     def oracle(self, case, res):
         try:
